@@ -759,6 +759,13 @@ func (pc *pathCtx) result(outcome, msg string) *PathResult {
 		cv = append(cv, k)
 	}
 	sort.Strings(cv)
+	if outcome == "return" || outcome == "panic-expected" {
+		// implicit obligation of every harness: the path ends without an undeclared target panic
+		pc.obligations++
+		pc.discharged++
+	} else if outcome == "panic" {
+		pc.obligations++
+	}
 	r := &PathResult{Outcome: outcome, Msg: msg, Steps: pc.steps, Decisions: len(pc.decs), Pending: pc.pending,
 		Covers: cv, Failures: pc.failures, Obligations: pc.obligations, Discharged: pc.discharged, Trivial: pc.trivial,
 		Inconcl: pc.inconcl, Cuts: pc.cuts}
